@@ -523,6 +523,23 @@ pub struct GenParams {
 
 impl GenParams {
     pub fn swarm(r: &mut Rng) -> GenParams {
+        if r.chance(1, 14) {
+            // a large project now and then: generated files beyond any 8 KiB buffer,
+            // hash tables past several resizes, more commands than any small constant
+            return GenParams {
+                n_files: r.range(5, 10),
+                n_types: r.range(12, 26),
+                n_cmds: r.range(18, 40),
+                n_events: r.range(3, 8),
+                n_decoys: r.range(0, 3),
+                max_depth: r.range(1, 2),
+                named_pct: 60,
+                validators: true,
+                serde_attrs: true,
+                channels: true,
+                tame_contexts: true,
+            };
+        }
         GenParams {
             n_files: r.range(1, 6),
             n_types: r.range(0, 8),
